@@ -22,8 +22,13 @@ import (
 type ExploreConfig struct {
 	// Inline decides whether a statically resolved module callee is traversed
 	// in place (bounded inlining = summary by path set).
-	Inline    func(fn *ssa.Function) bool
-	MaxDepth  int
+	Inline   func(fn *ssa.Function) bool
+	MaxDepth int
+	// NoArgInline disables argument-driven traversal of helpers (see argDriven)
+	NoArgInline bool
+	// Opaque names functions a rule treats as designated steps (events); they are
+	// never traversed by argument-driven inlining
+	Opaque    func(*ssa.Function) bool
 	MaxVisits int
 	MaxPaths  int
 	MaxSteps  int
@@ -257,6 +262,35 @@ type explorer struct {
 	curCtx *Term
 }
 
+// argDriven: a narrowed inline policy (storage-reaching, small helpers, ...)
+// leaves helpers opaque whose bodies are irrelevant to the rule. That is only
+// harmless while the helper does not transform an effect's result: a helper
+// that receives the result of an impure call (a storage error, a stored
+// request) classifies or wraps it, and leaving it opaque loses the link between
+// the effect and the exit. Such unexported helpers are traversed in place.
+func (x *explorer) argDriven(fn *ssa.Function, args []*Term) bool {
+	if x.cfg.NoArgInline || !defaultInline(fn) || x.cfg.Opaque != nil && x.cfg.Opaque(fn) {
+		return false
+	}
+	// tiny wrappers (one or two paths) cannot multiply paths and typically build
+	// the error value of an exit
+	if len(fn.Blocks) <= 3 {
+		return true
+	}
+	// predicates: an unexported helper returning one bool is a guard written as a function
+	if r := fn.Signature.Results(); r.Len() == 1 && len(fn.Blocks) <= 24 {
+		if b, ok := r.At(0).Type().Underlying().(*types.Basic); ok && b.Info()&types.IsBoolean != 0 {
+			return true
+		}
+	}
+	for _, a := range args {
+		if a != nil && a.Mentions(func(t *Term) bool { return t.Op == "icall" }) {
+			return true
+		}
+	}
+	return false
+}
+
 func defaultInline(fn *ssa.Function) bool {
 	if fn.Parent() != nil {
 		return true // closures
@@ -337,6 +371,49 @@ func (x *explorer) emit(st *state, kind string, rets []*Term, pos token.Pos) {
 	}
 }
 
+// emitSplit ends a root path. A boolean result that is not a constant on this
+// path ("return a && !b" compiles to a value, not to two exits) is split into
+// the exit where it is true and the exit where it is false, each with the
+// corresponding facts, so that rules about "true is returned only if ..." see
+// the same shape whichever way the predicate is written.
+func (x *explorer) emitSplit(st *state, rets []*Term, ins *ssa.Return, from int) {
+	for i := from; i < len(rets); i++ {
+		r := rets[i]
+		b, isBasic := ins.Results[i].Type().Underlying().(*types.Basic)
+		if !isBasic || b.Info()&types.IsBoolean == 0 || r.Key() == tTrue.Key() || r.Key() == tFalse.Key() {
+			continue
+		}
+		if v, ok := x.foldBool(st, r); ok {
+			rets[i] = tFalse
+			if v {
+				rets[i] = tTrue
+			}
+			continue
+		}
+		for _, pol := range []bool{false, true} {
+			s2 := st.clone()
+			ok := true
+			for _, f := range decompose(r, pol) {
+				if !s2.addFact(f) {
+					ok = false
+					break
+				}
+			}
+			if !ok {
+				continue
+			}
+			r2 := append([]*Term{}, rets...)
+			r2[i] = tFalse
+			if pol {
+				r2[i] = tTrue
+			}
+			x.emitSplit(s2, r2, ins, i+1)
+		}
+		return
+	}
+	x.emit(st, "return", rets, ins.Pos())
+}
+
 // exec runs one state until it ends or forks (forks are pushed on the worklist).
 func (x *explorer) exec(st *state) {
 	for {
@@ -415,7 +492,7 @@ func (x *explorer) exec(st *state) {
 				rets = append(rets, x.rawOf(st, fr, r))
 			}
 			if len(st.stack) == 1 {
-				x.emit(st, "return", rets, ins.Pos())
+				x.emitSplit(st, rets, ins, 0)
 				return
 			}
 			st.stack = st.stack[:len(st.stack)-1]
@@ -1322,7 +1399,7 @@ func (x *explorer) doCall(st *state, fr *frame, c *ssa.CallCommon, bind *ssa.Cal
 	if isBound {
 		pureStatic = false
 	}
-	if !pureStatic && len(static.Blocks) > 0 && (isBound || (isSubjectPkg(fnPkgPath(static)) && x.cfg.Inline(static))) && fr.depth < x.cfg.MaxDepth+2 && (isBound || fr.depth < x.cfg.MaxDepth) && !x.onStack(st, static) {
+	if !pureStatic && len(static.Blocks) > 0 && (isBound || (isSubjectPkg(fnPkgPath(static)) && (x.cfg.Inline(static) || x.argDriven(static, cargs)))) && fr.depth < x.cfg.MaxDepth+2 && (isBound || fr.depth < x.cfg.MaxDepth) && !x.onStack(st, static) {
 		nf := x.newFrame(st, static, args, free, fr.depth+1)
 		nf.inDefer = fr.inDefer || d != nil
 		if bind != nil {
